@@ -91,13 +91,15 @@ impl PlFold for Flattener {
                         let param_id = table_param.name.parse::<usize>().unwrap();
 
                         self.replace_map.insert(param_id, input);
-                        self.partition = Some(by);
+                        // a group nested in the body of another group: the outer partition
+                        // applies again to what follows the inner group
+                        let outer_partition = self.partition.replace(by);
                         self.sort.clear();
 
                         let pipeline = self.fold_expr(*pipeline.body)?;
 
                         self.replace_map.remove(&param_id);
-                        self.partition = None;
+                        self.partition = outer_partition;
                         self.sort.clear();
                         self.sort_undone = sort_undone;
 
@@ -129,11 +131,12 @@ impl PlFold for Flattener {
                         let param_id = table_param.name.parse::<usize>().unwrap();
 
                         self.replace_map.insert(param_id, tbl);
-                        self.window = WindowFrame { kind, range };
+                        let outer_window =
+                            std::mem::replace(&mut self.window, WindowFrame { kind, range });
 
                         let pipeline = self.fold_expr(*pipeline.body)?;
 
-                        self.window = WindowFrame::default();
+                        self.window = outer_window;
                         self.replace_map.remove(&param_id);
 
                         return Ok(Expr {
@@ -146,8 +149,9 @@ impl PlFold for Flattener {
                         let input = self.fold_expr(*t.input)?;
 
                         // Relational arguments (the `with` of join, the bottom of append, the body
-                        // of loop) are pipelines of their own: the sort of this pipeline must not
-                        // leak into them, nor theirs into this pipeline.
+                        // of loop) are pipelines of their own: the sort, the partition and the
+                        // window frame of this pipeline must not leak into them, nor theirs into
+                        // this pipeline.
                         let has_sub_pipeline = matches!(
                             kind,
                             TransformKind::Join { .. }
@@ -157,9 +161,13 @@ impl PlFold for Flattener {
                         if has_sub_pipeline {
                             let sort = std::mem::take(&mut self.sort);
                             let sort_undone = std::mem::replace(&mut self.sort_undone, false);
+                            let partition = self.partition.take();
+                            let window = std::mem::take(&mut self.window);
                             let kind = fold_transform_kind(self, kind)?;
                             self.sort = sort;
                             self.sort_undone = sort_undone;
+                            self.partition = partition;
+                            self.window = window;
                             (input, kind)
                         } else {
                             (input, fold_transform_kind(self, kind)?)
